@@ -70,17 +70,10 @@ type rawClause struct {
 	line             int
 }
 
-func (c *Clause) visible(prop string) bool {
-	if prop == "" || len(c.Tags) == 0 {
-		return true
-	}
-	for _, t := range c.Tags {
-		if t == prop || t == "*" {
-			return true
-		}
-	}
-	return false
-}
+// visible: every clause is part of the contract in every projection; the tags decide under which property a
+// clause is *proved* (see counts in check.go). A property's check therefore assumes the clauses carried by
+// other properties, which are discharged by those properties' own checks.
+func (c *Clause) visible(prop string) bool { return true }
 
 func hasTag(tags []string, p string) bool {
 	for _, t := range tags {
